@@ -1,18 +1,36 @@
 """C09 -- Retained snapshots are immutable and time travel is stable.
 
-Proof      : coq/Props/C09.v: (a) C09_immutable over Model/Fault.v: once a version is committed, any later sequence
-             of commits (appends, deletes that rewrite manifests into fresh files), failed / interrupted / crashed
-             commits and rollbacks leaves the set of files it references unchanged and all present (write-once files);
-             (b) C09_by_timestamp / C09_delete_current / C09_by_id over Model/Meta.v (proved with C15): lookup by
-             timestamp returns the most recently committed retained snapshot not newer than t (stable sort, non-decreasing
-             timestamps), deleting the current snapshot repoints to the most recently committed survivor; (c) collections
-             delete only unreferenced files (C05's history theorem, re-exported).
-Tie/oracle : random sequential histories on the real library over {append, delete_files, expire_snapshots,
-             delete_snapshot, garbage_collect(0 | large), failed commit}: after EVERY step every retained snapshot is
-             re-read by an independent reader and compared with the content recorded when it was committed; lookup by
-             id, lookup by timestamp (at, between and outside all snapshot timestamps; equal timestamps included) and the
-             repointed current snapshot are compared with an independent reference AND with the Coq model
-             (Meta.v functions evaluated by vm_compute on the same snapshot lists).
+Proof      : coq/Props/C09.v:
+             (a) C09_immutable over Model/Fault.v: once a version is committed, any later sequence of commits (appends, deletes
+                 that rewrite manifests into fresh files), failed / interrupted / crashed commits and rollbacks leaves the set of
+                 files it references unchanged and all present (write-once files);
+             (b) C09_by_timestamp / C09_delete_current / C09_by_id over Model/Meta.v (proved with C15): lookup by timestamp returns
+                 the most recently committed retained snapshot not newer than t (stable sort, non-decreasing timestamps), deleting
+                 the current snapshot repoints to the most recently committed survivor;
+             (c) collections: C09_collect_keeps_retained (C05's history theorem, retained-snapshot half) and, over Model/GCView.v,
+                 C09_retained_content_step / C09_retained_content_stable: the CONTENT a reader gets from a retained snapshot
+                 (manifests of its list, data files of each manifest, body of each data file) exists after every sequential history
+                 of Model/GCHist.v and is left exactly as it was by any further step -- a commit with ANY mix of appended, rewritten
+                 and dropped manifests (append, delete_files, one transaction doing both, with or without an expiry), expiry,
+                 deletion of any snapshot (oldest / intermediate / current), open transactions, planted orphans, file ageing,
+                 collections with any location / grace / clock / fault oracle -- for as long as it stays in the metadata;
+             (d) the manifest lists a collection opens: Gen/GenGCRoots.v is REGENERATED from the loop of GarbageCollector.collect
+                 over metadata.snapshots (translator/gen_gcroots.py, fail closed: the loop that opens lists must iterate exactly the
+                 set that loop fills); C09_collect_roots_every_snapshot (the list of EVERY retained snapshot, for any parents and
+                 operation labels), C09_collect_roots_ignore_lineage, C09_collect_opens_roots (the collector model of C05 opens
+                 exactly the regenerated roots, under every fault oracle).
+Tie/oracle : random and directed sequential histories on the real library over {append, multi-file append, ONE transaction mixing
+             delete_files / append_data / expire_snapshots (recorded under a single operation label), delete_files,
+             expire_snapshots, retention-count pruning, delete_snapshot of the oldest / an intermediate / the parent of the current /
+             the current snapshot (survivors' parents are repointed), garbage_collect(0 | 1 h) with files on either side of the
+             cutoff, failed commit of each of these}; half of the random histories run a collection after EVERY step.  After every
+             step and after every collection every retained snapshot is re-read by an independent reader and compared with the
+             content recorded when it was committed; lookup by id, lookup by timestamp (at, between and outside all snapshot
+             timestamps; equal timestamps included) and the repointed current snapshot are compared with an independent reference.
+             Correspondence: the timestamp lookups with Meta.v; EVERY collection of these histories (traced storage, frozen clock)
+             with Model/GC.v gc_run (outcome, deleted set, keep sets, storage calls), the history invariant (hinvb), the content of
+             every retained snapshot before and after the collection (Model/GCView.v on the model's own final store vs the real
+             directory) and the regenerated roots vs the manifest lists the real collector opened.
 """
 from __future__ import annotations
 
@@ -23,17 +41,29 @@ from typing import Any, Dict, List, Optional, Tuple
 from harness.lib import coqbuild, protocol as P
 
 LEVEL = "proof"
-THEOREMS = ["C09_immutable", "C09_by_timestamp", "C09_delete_current", "C09_by_id", "C09_collect_keeps_retained"]
+THEOREMS = ["C09_immutable", "C09_by_timestamp", "C09_delete_current", "C09_by_id", "C09_collect_keeps_retained",
+            "C09_retained_content_step", "C09_retained_content_stable", "C09_collect_roots_every_snapshot",
+            "C09_collect_roots_ignore_lineage", "C09_collect_opens_roots"]
 MANIFEST_ENTRY = {
     "level_text": "Immutability of committed versions under every later sequence of commits, failures and rollbacks proved in Coq "
                   "(C09_immutable, unbounded); time-travel lookups and current-snapshot repointing proved over the metadata model "
                   "(C09_by_timestamp with a stable sort, C09_delete_current, C09_by_id); collections keep every retained snapshot "
-                  "(C09_collect_keeps_retained); random sequential histories on the real library re-read every retained snapshot "
-                  "after every step with an independent reader and compare the lookups with the model and an independent reference",
-    "level_note": "trusted: Coq kernel; files are write-once (fresh names), so an unchanged file set means unchanged content -- the "
-                  "harness checks content (rows) directly; timestamps non-decreasing (DESIGN.md C09 interpretation); model ties for "
-                  "Meta.v and GC.v are those of C15 and C05",
-    "technique": "Coq proofs (immutability invariant; stable-sort lookup) + sequential-history differential check",
+                  "(C09_collect_keeps_retained) and the content a reader gets from a retained snapshot is unchanged by every step of every "
+                  "sequential history -- commits mixing appended / rewritten / dropped manifests, expiries, deletions of any snapshot, "
+                  "collections under any fault oracle (C09_retained_content_step, C09_retained_content_stable, induction over unbounded "
+                  "histories); the manifest lists a collection opens are regenerated from GarbageCollector.collect and proved to be the "
+                  "lists of ALL retained snapshots whatever their parent links and operation labels (C09_collect_roots_every_snapshot, "
+                  "C09_collect_roots_ignore_lineage, C09_collect_opens_roots); random and directed sequential histories on the real "
+                  "library (mixed delete+append(+expire) transactions, deletions of intermediate snapshots, retention pruning, a "
+                  "collection after every step) re-read every retained snapshot after every step and every collection with an "
+                  "independent reader; lookups compared with the model and an independent reference; every collection compared with the "
+                  "collector model, the content model and the regenerated roots",
+    "level_note": "trusted: Coq kernel; translator/gen_gcroots.py, translator/gen_norm.py; files are write-once (fresh names: valid_commit "
+                  "of Model/GCHist.v), so an unchanged file set means unchanged content -- the harness checks content (rows) directly; "
+                  "timestamps non-decreasing (DESIGN.md C09 interpretation); model ties for Meta.v and GC.v are those of C15 and C05 plus "
+                  "the per-collection correspondence of this check; metadata_manager.refresh() is an input of the collector model",
+    "technique": "Coq proofs (immutability invariant; stable-sort lookup; content-stability induction over histories with collections; "
+                 "translator-regenerated root selection) + sequential-history differential check with per-collection model correspondence",
     "design_ref": "DESIGN.md section 5 C09",
 }
 
@@ -431,6 +461,30 @@ def model_by_timestamp(lookups: List[Dict[str, Any]]) -> List[Dict[str, Any]]:
     return bad
 
 
+def violation_key(v: str) -> str:
+    """What was violated and after which kind of step (the replay file is named after it)."""
+    import re
+    m = re.match(r"(?:after )?step \d+ \(([a-z_ :]+)\)", v)
+    after = m.group(1).replace("collect after ", "collect-after-").replace(":", "-").replace(" ", "-") if m else ""
+    if "is unreadable" in v or "reference missing files" in v:
+        what = "retained-snapshot-unreadable"
+    elif " changed: " in v:
+        what = "retained-snapshot-changed"
+    elif "time_travel(" in v:
+        what = "by-timestamp"
+    elif "lookup by id" in v:
+        what = "by-id"
+    elif "after deleting the current snapshot" in v:
+        what = "repoint-current"
+    elif "reported success" in v:
+        what = "failed-commit-reported-success"
+    elif " raised " in v:
+        what = "operation-raised"
+    else:
+        what = "other"
+    return (what + (":" + after if after else ""))[:60]
+
+
 def make_jobs(ctx) -> List[Dict[str, Any]]:
     quick = ctx.tier == "quick"
     nh, length = (24, 14) if quick else (240, 40)
@@ -479,7 +533,7 @@ def run(ctx) -> None:
         for k, v in stats.items():
             agg[k] = agg.get(k, 0) + v
         for v in viol[:3]:
-            ctx.violation("history:" + v.split(" ")[3 if v.startswith("after step") else 0][:24], v,
+            ctx.violation("history:" + violation_key(v), v,
                           {"seed": j["seed"], "length": j["length"], "script": j["script"], "backwards": j["backwards"], "opts": j["opts"]})
         all_lookups.extend(lookups)
     ctx.stats["histories"] = len(jobs)
@@ -509,5 +563,60 @@ def replay(ctx, payload) -> int:
     return 1 if viol else 0
 
 
+def _unsome(v: Any) -> Any:
+    return v.x if hasattr(v, "x") else v
+
+
 def model_collections(ctx, collect_log: List[Dict[str, Any]]) -> None:
-    pass
+    """Every recorded collection of the histories through the Coq model: the collector (Model/GC.v gc_run: outcome, deleted
+    set, keep sets, storage calls), the invariant of the history theorems (hinvb), the content of every retained snapshot
+    before and after the collection (Model/GCView.v snap_files, the model's own final store against the real directory),
+    and the regenerated roots (Gen/GenGCRoots.v) against the manifest lists the real collector opened."""
+    from harness.lib import gcsim
+    from harness.lib.coqio import to_coq
+    recs = collect_log
+    cap = 160 if ctx.tier == "quick" else 1000
+    if len(recs) > cap:
+        keep = sorted(ctx.rng.sample(range(len(recs)), cap))
+        recs = [recs[i] for i in keep]
+    ctx.stats["collections_recorded"] = len(collect_log)
+    ctx.stats["collections_compared_with_model"] = len(recs)
+    ctx.stats["collections_on_lineages_with_mixed_or_repointed_parents"] = sum(
+        1 for c in collect_log if any(op == "append" and p is not None for _i, p, op, _l in c["recs"]))
+    if not recs:
+        return
+    exprs = []
+    for c in recs:
+        snaps, tp = to_coq(list(c["snaps"])), to_coq(c["tp"])
+        rr = "[" + "; ".join(f"mkSnap ({i})%Z {'None' if p is None else f'(Some ({p})%Z)'} {to_coq(op)} {to_coq(ml)}" for i, p, op, ml in c["recs"]) + "]"
+        exprs.append(f"let st := {c['store']} in let r := gc_run {tp} ({c['grace']})%Z ({c['now_ms']})%Z ({TIMEOUT_MS})%Z no_faults {snaps} st in "
+                     f"(render r, hinvb {snaps} st, map (snap_files st) {snaps}, map (snap_files (g_store (r_final r))) {snaps}, gc_list_roots {tp} {rr})")
+    try:
+        vals = coqbuild.coq_eval(gcsim.REQ + ["DS.Model.GCHist", "DS.Model.GCView", "DS.Model.SnapRec", "DS.Gen.GenGCRoots"], exprs,
+                                 chunk=gcsim.chunk_for(len(exprs)), timeout=1200)
+    except RuntimeError as e:
+        ctx.proof_problems.append("model evaluation failed (collections of the C09 histories): " + str(e)[:600])
+        return
+
+    def views(v: Any) -> List[Any]:
+        return [None if x is None else [(m, list(ds)) for m, ds in _unsome(x)] for x in v]
+
+    bad_gc, bad_inv, bad_view, bad_roots = [], [], [], []
+    for c, v in zip(recs, vals):
+        where = {"seed": c["seed"], "step": c["step"], "grace": c["grace"]}
+        diffs = gcsim.compare(c["real"], c["before"], c["after"], gcsim.parse_render(v[:6]))
+        if diffs:
+            bad_gc.append(dict(where, diffs=diffs[:4]))
+        if v[6] is not True:
+            bad_inv.append(dict(where, note="the directory written by the real writers does not satisfy hinvb"))
+        mb, ma = views(v[7]), views(v[8])
+        rb = [None if x is None else [(m, list(ds)) for m, ds in x] for x in c["views_before"]]
+        ra = [None if x is None else [(m, list(ds)) for m, ds in x] for x in c["views_after"]]
+        if mb != rb or (not c["real"]["raised"] and ma != ra):
+            bad_view.append(dict(where, before_code=rb, before_model=mb, after_code=ra, after_model=ma))
+        if not c["real"]["raised"] and (sorted(v[9]) != c["lists_opened"] or len(set(v[9])) != len(v[9])):
+            bad_roots.append(dict(where, opened_by_code=c["lists_opened"], roots_generated=sorted(v[9])))
+    ctx.correspondence("gc_run (collections of the C09 histories)", len(recs), bad_gc)
+    ctx.correspondence("hinv (before every collection)", len(recs), bad_inv)
+    ctx.correspondence("snapshot-content (before / after every collection)", len(recs), bad_view)
+    ctx.correspondence("collector-roots (lists opened vs Gen/GenGCRoots.v)", len(recs), bad_roots)
